@@ -22,7 +22,7 @@ def build_solver(ob, world_axioms, timeout_ms):
     return s
 
 
-def discharge(ob, world_axioms, timeout_ms=20000, want_model=False, retry=True):
+def discharge(ob, world_axioms, timeout_ms=20000, want_model=False, retry=True, cover=False):
     """sets ob.result in {'unsat','sat','unknown','trivial'}; unsat = discharged"""
     if ob.result == 'trivial':
         return ob
@@ -38,10 +38,14 @@ def discharge(ob, world_axioms, timeout_ms=20000, want_model=False, retry=True):
         s2.set('timeout', max(2000, timeout_ms // 4))
         for a in s.assertions():
             s2.add(a)
+        if cover:
+            s2.set('timeout', 900)
         r2 = s2.check()
         if r2 != z3.unknown:
             ob.result = str(r2)
             s, r = s2, r2
+        elif cover:
+            pass
         else:
             # e-matching is order sensitive: retry with other seeds / a more eager instantiation threshold
             for seed, thr in ((7, 20.0), (23, 100.0), (101, 10.0)):
